@@ -116,10 +116,11 @@ def embed_3d_via_rdkit(mol_graph):
     # Get the conformer
     conf = rdkit_mol.GetConformer()
 
-    # write the positions to the original molecule graph
-    for ndx, atom in enumerate(rdkit_mol.GetAtoms()):
+    # write the positions to the original molecule graph; the atoms were
+    # added to the rdkit molecule in the order of the nodes in the graph
+    for node, atom in zip(mol_graph.nodes, rdkit_mol.GetAtoms()):
         pos = conf.GetAtomPosition(atom.GetIdx())
-        mol_graph.nodes[ndx]['position'] = np.array([pos.x, pos.y, pos.z])
+        mol_graph.nodes[node]['position'] = np.array([pos.x, pos.y, pos.z])
 
     return mol_graph
 
